@@ -125,6 +125,8 @@ func c08Pool() (pool []srule) {
 		pool = append(pool, srule{false, c08P1, o})
 	}
 	pool = append(pool, srule{true, c08P1, []string{"dnsrewrite"}})
+	// modifiers that stand for several options (a later one must not wipe an earlier one)
+	pool = append(pool, srule{true, c08P1, []string{"document"}}, srule{true, c08P1, []string{"important", "document"}})
 	return pool
 }
 
